@@ -251,7 +251,14 @@ def float_dir_deriv(cfg, env, dname="d", h=1e-4, one_sided=0):
         return list(2 * d2 - d1)
     c1 = (F(h) - F(-h)) / (2 * h)
     c2 = (F(h / 2) - F(-h / 2)) / h
+    sc = max(1.0, float(onp.max(onp.abs(c1))) if c1.size else 1.0)
+    if c1.size and float(onp.max(onp.abs(c1 - c2))) > 1e-3 * sc:
+        raise NonSmooth("finite differences with steps h and h/2 disagree: not a regular point")
     return list((4 * c2 - c1) / 3)
+
+
+class NonSmooth(Exception):
+    pass
 
 
 def _float_arg_like(cfg, k, env):
@@ -361,8 +368,11 @@ def _validate(cfg, out, p, env, want_vjp, want_jvp):
         if not close(ys, yf, 1e-6, 1e-8):
             msgs.append("primal: symbolic %s vs float64 %s" % (ys[:4], yf[:4]))
         dys = floats_of(res["y"], env, 1)
-        fd = float_dir_deriv(cfg, env)
-        if not close(dys, fd, 2e-4, 1e-6):
+        try:
+            fd = float_dir_deriv(cfg, env)
+        except NonSmooth:
+            fd = None
+        if fd is not None and not close(dys, fd, 2e-4, 1e-6):
             msgs.append("oracle derivative: symbolic %s vs finite difference %s" % (dys[:4], fd[:4]))
         if want_vjp and "got" in res:
             yv, g, got = float_vjp(cfg, env)
@@ -402,7 +412,10 @@ def replay_vjp(cfg, env, tol=1e-5):
     denv = {n[1:]: v for n, v in env.items() if n.startswith("dx%d" % k)}
     d = _float_arg_like(cfg, k, denv)
     lhs = cdot(got, d)
-    fd = float_dir_deriv(cfg, env)
+    try:
+        fd = float_dir_deriv(cfg, env)
+    except NonSmooth as e:
+        return False, str(e)
     rhs = cdot(g, unflat_like(fd, g))
     scale = max(1.0, abs(lhs), abs(rhs))
     bad = (math.isnan(lhs) or math.isinf(lhs) or abs(lhs - rhs) > tol * scale * 10)
@@ -449,10 +462,20 @@ def _float_raises(cfg, mode):
         else:
             float_jvp(cfg, _with_v(cfg, env, rng))
         return None
-    except KeyError:
-        raise
     except Exception as e:
         return e
+
+
+def _numpy_float_raises(cfg):
+    rng = _rng(cfg)
+    env = _Default(rand_env(all_var_names(cfg.make_args()), rng), rng)
+    try:
+        with warnings.catch_warnings():
+            warnings.simplefilter("ignore")
+            cfg.call(onp, *cfg.float_args(env))
+        return False
+    except Exception:
+        return True
 
 
 class _Default(dict):
@@ -491,7 +514,7 @@ def _decide(cfg, out, paths, opts, mode):
             nrej += 1
             out.detail = exc_sig(res["exc"])
             continue
-        # reachability witness
+        # reachability witness (first path only needs the solver if no claim query follows)
         r, m = witness(p, out, opts)
         if r == "unsat":
             out.paths_dropped += 1
@@ -547,7 +570,11 @@ def _decide(cfg, out, paths, opts, mode):
                 out.status = "raises"
                 out.detail = exc_sig(e)
         elif nrej:
-            out.status = "numpy_rejects"
+            if _numpy_float_raises(cfg):
+                out.status = "numpy_rejects"
+            else:
+                out.status = "inconclusive"
+                out.detail = "NumPy accepts this call on float64 but has no object-dtype path (%s)" % out.detail
         else:
             out.status, out.detail = "error", "no feasible path was witnessed (vacuous harness)"
         return
@@ -621,8 +648,549 @@ def replay_jvp(cfg, env, tol=1e-5):
         y = cfg.call(onp, *cfg.float_args(env))
     if structure(tan)[:2] != structure(y)[:2]:
         return True, "tangent structure %s != output structure %s" % (structure(tan), structure(y))
-    fd = float_dir_deriv(cfg, env)
+    try:
+        fd = float_dir_deriv(cfg, env)
+    except NonSmooth as e:
+        return False, str(e)
     tf = flat_float(tan)
     scale = max([1.0] + [abs(a) for a in tf] + [abs(b) for b in fd])
     bad = len(tf) != len(fd) or any(math.isnan(a) or abs(a - b) > tol * 10 * scale for a, b in zip(tf, fd))
     return bad, "jvp=%s finite difference=%s" % ([round(a, 6) for a in tf[:6]], [round(b, 6) for b in fd[:6]])
+
+
+# ----------------------------------------------------------------------------------------------
+# C01 kink claim (explicit-tie primitives): finite, and between the two one-sided directional derivatives
+
+
+def unit_like(v, k):
+    """concrete unit cotangent e_k with the structure of v (real leaves only)"""
+    shape = onp.shape(v)
+    if shape == () and not isinstance(v, onp.ndarray):
+        return 1.0
+    g = onp.zeros(shape)
+    g.ravel()[k] = 1.0
+    return g
+
+
+def z3_divs(terms):
+    """denominators of every division node in the terms"""
+    seen = set()
+    dens = []
+    stack = [t for t in terms if isinstance(t, z3.ExprRef)]
+    while stack:
+        t = stack.pop()
+        i = t.get_id()
+        if i in seen:
+            continue
+        seen.add(i)
+        if t.decl().kind() == z3.Z3_OP_DIV:
+            dens.append(t.children()[1])
+        stack.extend(t.children())
+    return dens
+
+
+def kink_body(cfg):
+    from autograd import core
+
+    k = cfg.argnum
+    anp = enga.anp
+    pins = getattr(cfg, "pins", None)
+
+    def body():
+        dual = cfg.make_args(eps={k: {1: "d"}})
+        if pins:
+            for (idx, val) in pins:
+                e = dual[k][idx] if idx is not None else dual[k]
+                CTX.add_assume(toz(e.c[0]) == toz(Fr(val)), "pinned to the kink")
+        try:
+            yp = cfg.call(onp, *dual)
+        except (Unsupported, Infeasible, PathLimit):
+            raise
+        except Exception as e:
+            return {"tag": "numpy_rejects", "exc": e}
+        neg = list(dual)
+        neg[k] = _negate_dir(dual[k])
+        ym = cfg.call(onp, *neg)
+        res = {"tag": "ok", "x": dual[k], "yp": yp, "ym": ym, "args": dual}
+        plain = cfg.make_args()
+        f = lambda x: cfg.call(anp, *subst(plain, k, x))
+        CTX.strict_div = True
+        try:
+            vjp, yv = core.make_vjp(f, plain[k])
+            n = len(leaves(yv))
+            gots = []
+            for j in range(n):
+                gots.append(vjp(unit_like(yv, j)))
+            res["gots"] = gots
+            res["yv"] = yv
+        except (Unsupported, Infeasible, PathLimit):
+            raise
+        except Exception as e:
+            res["vjp_exc"] = e
+        finally:
+            CTX.strict_div = False
+        return res
+
+    return body
+
+
+def _negate_dir(xd):
+    if isinstance(xd, S):
+        return S({m: (t if m == 0 else (-t if type(t) is Fr else -t)) for m, t in xd.c.items()})
+    out = onp.empty(onp.shape(xd), dtype=object)
+    for i in onp.ndindex(*onp.shape(xd)):
+        out[i] = _negate_dir(xd[i])
+    return out
+
+
+def check_kink(cfg, tier="quick"):
+    opts = tier_opts(tier)
+    out = Outcome(cfg)
+    t0 = time.time()
+    cfg.mode = "lex"
+    paths = explore_cfg(cfg, out, kink_body(cfg), opts)
+    if paths is None:
+        out.time = time.time() - t0
+        return out
+    nok = 0
+    ntie = 0
+    for p in paths:
+        if p.err is not None:
+            out.status, out.detail = "error", "harness: body raised %s" % exc_sig(p.err)
+            break
+        res = p.res
+        if res["tag"] == "numpy_rejects":
+            out.status, out.detail = "numpy_rejects", exc_sig(res["exc"])
+            break
+        r, m = witness(p, out, opts)
+        if r == "unsat":
+            out.paths_dropped += 1
+            continue
+        if "vjp_exc" in res:
+            out.status, out.detail = "raises", exc_sig(res["vjp_exc"])
+            break
+        nok += 1
+        x = res["x"]
+        dvs = coeffs(x, 1)
+        is_tie = any(_mentions_eq(c) for c in p.pc) or bool(getattr(cfg, "pins", None))
+        ntie += 1 if is_tie else 0
+        ante = p.antecedent()
+        # finiteness: every denominator in the returned cotangent must be non-zero on this path
+        all_terms = []
+        for got in res["gots"]:
+            if structure(got)[:2] != structure(x)[:2]:
+                out.status, out.detail = "violation", "cotangent structure %s differs from argument structure %s" % (structure(got), structure(x))
+                out.cex = {"env": {}, "mode": "kink"}
+                break
+            all_terms.extend(t for t in coeffs(got, 0) if type(t) is not Fr)
+        if out.status:
+            break
+        bad = None
+        for den in z3_divs(all_terms):
+            r2, m2, _ = solve.check(ante + [den == 0], timeout_ms=opts["timeout_ms"])
+            out.queries += 1
+            out.verdicts[r2] += 1
+            if r2 == "sat":
+                bad = ("non-finite: a denominator of the returned cotangent vanishes on this path", m2)
+                break
+            if r2 == "unknown":
+                out.status, out.detail = "inconclusive", "solver unknown on a finiteness obligation"
+                break
+        if out.status:
+            break
+        if bad is None:
+            yp, ym = coeffs(res["yp"], 1), coeffs(res["ym"], 1)
+            for j, got in enumerate(res["gots"]):
+                L = Fr(0)
+                from .sym import t_add, t_mul
+                for a, b in zip(coeffs(got, 0), dvs):
+                    L = t_add(L, t_mul(a, b))
+                Dp = yp[j]
+                Dm = -ym[j] if type(ym[j]) is Fr else -ym[j]
+                e1, e2 = t_sub(L, Dp), t_sub(L, Dm)
+                if type(e1) is Fr and type(e2) is Fr:
+                    if e1 * e2 > 0:
+                        bad = ("outside the one-sided derivatives (constant)", m or {})
+                        break
+                    continue
+                neg = toz(e1) * toz(e2) > 0
+                r2, m2, _ = solve.check(ante + [neg], timeout_ms=opts["timeout_ms"])
+                out.queries += 1
+                out.verdicts[r2] += 1
+                if r2 == "sat":
+                    bad = ("<vjp(e_%d),d> lies outside [min,max] of the one-sided directional derivatives" % j, m2)
+                    break
+                if r2 == "unknown":
+                    out.status, out.detail = "inconclusive", "solver unknown on a kink claim"
+                    break
+            if out.status:
+                break
+        if bad is not None:
+            what, model = bad
+            rep, info, env = replay_kink(cfg, p, model or {})
+            if rep:
+                out.status = "violation"
+                out.detail = "%s; %s" % (what, info)
+                out.cex = {"env": env, "mode": "kink", "info": info}
+            else:
+                out.status = "error"
+                out.detail = "kink counterexample does not reproduce on float64: %s; %s" % (what, info)
+                out.cex = {"env": env, "mode": "kink", "info": info}
+            break
+    if out.status is None:
+        if nok == 0:
+            out.status, out.detail = "error", "no feasible path witnessed"
+        else:
+            out.status = "holds"
+            out.extra["tie_paths"] = ntie
+    out.time = time.time() - t0
+    return out
+
+
+def _mentions_eq(c):
+    """does the PC atom equate two value-level terms (a tie)?"""
+    if not isinstance(c, z3.ExprRef):
+        return False
+    k = c.decl().kind()
+    if k == z3.Z3_OP_EQ:
+        return True
+    if k == z3.Z3_OP_AND:
+        return any(_mentions_eq(x) for x in c.children())
+    if k == z3.Z3_OP_NOT:
+        ch = c.children()[0]
+        # not(a<b) and not(a>b) style ties are not produced by the executor; Not(Eq) is a non-tie
+        return False
+    if k in (z3.Z3_OP_LE, z3.Z3_OP_GE):
+        return False
+    return False
+
+
+def replay_kink(cfg, p, model, h=1e-6, tol=1e-4):
+    """float64: autograd's cotangent at the tie point must be finite and pair with d inside the one-sided
+    finite-difference derivatives of NumPy's function"""
+    from autograd import core
+
+    rng = _rng(cfg)
+    names = all_var_names(list(p.res["args"]))
+    env = _Default(model_env(model, names, rng), rng)
+    k = cfg.argnum
+    fa = cfg.float_args(env)
+    denv = {n[1:]: v for n, v in env.items() if n.startswith("dx%d" % k)}
+    d = _float_arg_like(cfg, k, denv)
+    anp = enga.anp
+    try:
+        with warnings.catch_warnings():
+            warnings.simplefilter("ignore")
+            vjp, yv = core.make_vjp(lambda x: cfg.call(anp, *subst(fa, k, x)), fa[k])
+            n = len(flat_float(yv))
+            Dp = float_dir_deriv(cfg, env, h=h, one_sided=+1)
+            Dm = float_dir_deriv(cfg, env, h=h, one_sided=-1)
+            for j in range(n):
+                got = vjp(unit_like(yv, j))
+                gf = flat_float(got)
+                if any(math.isnan(a) or math.isinf(a) for a in gf):
+                    return True, "cotangent for output %d is non-finite: %s" % (j, gf[:6]), dict(env)
+                L = dot(gf, flat_float(d))
+                lo, hi = min(Dp[j], Dm[j]), max(Dp[j], Dm[j])
+                sc = max(1.0, abs(lo), abs(hi))
+                if L < lo - tol * sc or L > hi + tol * sc:
+                    return True, "output %d: <vjp,d>=%.6g not in [%.6g, %.6g]" % (j, L, lo, hi), dict(env)
+    except Exception as e:
+        return False, "float64 run raised %s" % exc_sig(e), dict(env)
+    return False, "within one-sided derivatives", dict(env)
+
+
+# ----------------------------------------------------------------------------------------------
+# replay of a stored counterexample file
+
+
+def replay_file(prop, path, items):
+    import json
+
+    with open(path) as f:
+        data = json.load(f)
+    key = data.get("key")
+    cfg = None
+    for c in items:
+        if c.key == key:
+            cfg = c
+            break
+    if cfg is None:
+        print("replay: configuration %r not found in the current grid" % key)
+        return 3
+    cex = data.get("cex") or {}
+    env = _Default(cex.get("env") or {}, random.Random(0))
+    mode = cex.get("mode", "vjp")
+    if mode == "kink":
+        class P:
+            pass
+        p = P()
+        p.res = {"args": cfg.make_args(eps={cfg.argnum: {1: "d"}})}
+        rep, info, _ = replay_kink(cfg, p, {k: v for k, v in env.items()})
+    elif mode == "jvp":
+        rep, info = replay_jvp(cfg, env)
+    else:
+        rep, info = replay_vjp(cfg, env)
+    print("replay %s: %s" % (key, info))
+    if rep:
+        print("VIOLATION property=%s replay=%s" % (prop, path))
+        return 1
+    print("does not reproduce on the current tree")
+    return 0
+
+
+# ----------------------------------------------------------------------------------------------
+# C04: adjointness and linearity of the two rule tables (no oracle involved)
+
+
+def check_adjoint(cfg, tier="quick"):
+    from autograd import core
+    from .sym import sym, t_add, t_mul
+
+    opts = tier_opts(tier)
+    out = Outcome(cfg)
+    t0 = time.time()
+    k = cfg.argnum
+    anp = enga.anp
+
+    def comb(a, u1, b, u2):
+        """a*u1 + b*u2 on symbolic structures (a, b scalars S)"""
+        if isinstance(u1, (tuple, list)):
+            return type(u1)(comb(a, p, b, q) for p, q in zip(u1, u2)) if not hasattr(u1, "_fields") else type(u1)(*[comb(a, p, b, q) for p, q in zip(u1, u2)])
+        return a * u1 + b * u2
+
+    def body():
+        plain = cfg.make_args()
+        f = lambda x: cfg.call(anp, *subst(plain, k, x))
+        res = {"tag": "ok", "args": plain}
+        try:
+            vjp, yv = core.make_vjp(f, plain[k])
+        except (Unsupported, Infeasible, PathLimit):
+            raise
+        except Exception as e:
+            return {"tag": "raises", "exc": e, "args": plain}
+        g1, g2 = sym_like(yv, "g"), sym_like(yv, "h")
+        v1, v2 = sym_like(plain[k], "v"), sym_like(plain[k], "w")
+        a, b = sym("a"), sym("b")
+        try:
+            res["G1"], res["G2"] = vjp(g1), vjp(g2)
+            res["G12"] = vjp(comb(a, g1, b, g2))
+            jv = core.make_jvp(f, plain[k])
+            res["T1"] = jv(v1)[1]
+            res["T2"] = jv(v2)[1]
+            res["T12"] = jv(comb(a, v1, b, v2))[1]
+        except (Unsupported, Infeasible, PathLimit):
+            raise
+        except Exception as e:
+            return {"tag": "raises", "exc": e, "args": plain}
+        res.update(g1=g1, g2=g2, v1=v1, v2=v2, a=a, b=b, yv=yv)
+        return res
+
+    paths = explore_cfg(cfg, out, body, opts)
+    if paths is None:
+        out.time = time.time() - t0
+        return out
+    nok = 0
+    for p in paths:
+        if p.err is not None:
+            out.status, out.detail = "error", "harness: body raised %s" % exc_sig(p.err)
+            break
+        res = p.res
+        if res["tag"] == "raises":
+            out.detail = exc_sig(res["exc"])
+            continue
+        r, m = witness(p, out, opts)
+        if r == "unsat":
+            out.paths_dropped += 1
+            continue
+        nok += 1
+        a, b = res["a"].c[0], res["b"].c[0]
+        eqs = []
+        names = []
+        # adjointness (documented conjugation for complex values)
+        try:
+            adj = (pair(res["g1"], res["T1"], 0, 0, conj_a=True), pair(res["G1"], res["v1"], 0, 0, conj_a=True))
+            for c12, c1, c2 in zip(coeffs(res["T12"]), coeffs(res["T1"]), coeffs(res["T2"])):
+                eqs.append((c12, t_add(t_mul(a, c1), t_mul(b, c2))))
+                names.append("jvp linear")
+            for c12, c1, c2 in zip(coeffs(res["G12"]), coeffs(res["G1"]), coeffs(res["G2"])):
+                eqs.append((c12, t_add(t_mul(a, c1), t_mul(b, c2))))
+                names.append("vjp linear")
+            # adjointness last: once both maps are proved linear, the identity is bilinear in (g, v) and may be
+            # split over unit tangents
+            eqs.append(adj)
+            names.append("<g,jvp(v)> == <vjp(g),v>")
+        except ValueError as e:
+            out.status, out.detail = "inconclusive", "structure mismatch between rule results (decided by C05): %s" % e
+            break
+        if len(coeffs(res["T12"])) != len(coeffs(res["T1"])) or len(coeffs(res["G12"])) != len(coeffs(res["G1"])):
+            out.status, out.detail = "inconclusive", "structure mismatch between rule results (decided by C05)"
+            break
+        bad = None
+        vvars = [t for t in coeffs(res["v1"]) if type(t) is not Fr and z3.is_const(t)]
+        for (l, rr), nm in zip(eqs, names):
+            v, model = prove_eqs(p, [(l, rr)], vvars if nm.startswith("<g") else [], out, opts)
+            if v == "unknown":
+                out.status, out.detail = "inconclusive", "solver unknown on %s" % nm
+                break
+            if v == "sat":
+                bad = (nm, model)
+                break
+        if out.status:
+            break
+        if bad:
+            nm, model = bad
+            rep, info, env = replay_adjoint(cfg, p, model or {}, nm)
+            if rep:
+                out.status, out.detail = "violation", "%s fails; %s" % (nm, info)
+                out.cex = {"env": env, "mode": "adjoint", "info": info}
+            elif p.abstracted:
+                out.status, out.detail = "inconclusive", "model under abstraction does not reproduce (%s)" % info
+            else:
+                out.status, out.detail = "error", "counterexample to %s does not reproduce on float64: %s" % (nm, info)
+            break
+    if out.status is None:
+        if nok == 0:
+            e = None
+            try:
+                rng = _rng(cfg)
+                env = _Default({}, rng)
+                float_vjp(cfg, env)
+                float_jvp(cfg, env)
+            except Exception as ex:
+                e = ex
+            if e is None and any(p.res and p.res.get("tag") == "raises" for p in paths):
+                out.status, out.detail = "inconclusive", "symbolic run raised (%s) but float64 does not" % out.detail
+            else:
+                out.status = "raises"
+        else:
+            out.status = "holds"
+            out.validated += 1 if _validate_adjoint(cfg) else 0
+    out.time = time.time() - t0
+    return out
+
+
+def _adj_floats(cfg, env):
+    from autograd import core
+
+    anp = enga.anp
+    fa = cfg.float_args(env)
+    k = cfg.argnum
+    f = lambda x: cfg.call(anp, *subst(fa, k, x))
+    with warnings.catch_warnings():
+        warnings.simplefilter("ignore")
+        vjp, yv = core.make_vjp(f, fa[k])
+        g1, g2 = float_like(yv, "g", env), float_like(yv, "h", env)
+        v1, v2 = float_like(fa[k], "v", env), float_like(fa[k], "w", env)
+        a, b = env["a"], env["b"]
+        lin = lambda s, t, u1, u2: (s * onp.asarray(u1) + t * onp.asarray(u2)) if not isinstance(u1, (tuple, list)) else type(u1)(lin(s, t, p, q) for p, q in zip(u1, u2))
+        G1, G2, G12 = vjp(g1), vjp(g2), vjp(lin(a, b, g1, g2))
+        jv = core.make_jvp(f, fa[k])
+        T1, T2, T12 = jv(v1)[1], jv(v2)[1], jv(lin(a, b, v1, v2))[1]
+    return dict(g1=g1, v1=v1, G1=G1, G2=G2, G12=G12, T1=T1, T2=T2, T12=T12, a=a, b=b)
+
+
+def replay_adjoint(cfg, p, model, nm, tol=1e-7):
+    rng = _rng(cfg)
+    env = _Default({k_: float(v) for k_, v in model.items() if "!" not in k_}, rng)
+    try:
+        r = _adj_floats(cfg, env)
+    except Exception as e:
+        return False, "float64 run raised %s" % exc_sig(e), dict(env)
+    lhs, rhs = cdot(r["g1"], r["T1"]), cdot(r["G1"], r["v1"])
+    sc = max(1.0, abs(lhs), abs(rhs))
+    if abs(lhs - rhs) > tol * sc:
+        return True, "<g,jvp(v)>=%.12g but <vjp(g),v>=%.12g" % (lhs, rhs), dict(env)
+    for key12, k1, k2, what in (("T12", "T1", "T2", "jvp"), ("G12", "G1", "G2", "vjp")):
+        a12 = onp.array(flat_float(r[key12]))
+        comb = r["a"] * onp.array(flat_float(r[k1])) + r["b"] * onp.array(flat_float(r[k2]))
+        if a12.shape != comb.shape or onp.max(onp.abs(a12 - comb), initial=0.0) > tol * max(1.0, float(onp.max(onp.abs(comb), initial=0.0))):
+            return True, "%s is not linear: %s vs %s" % (what, a12[:4], comb[:4]), dict(env)
+    return False, "adjointness and linearity hold at the model point", dict(env)
+
+
+def _validate_adjoint(cfg):
+    rng = _rng(cfg)
+    env = _Default({}, rng)
+    try:
+        rep, info, _ = replay_adjoint(cfg, None, {}, "")
+        return not rep
+    except Exception:
+        return False
+
+
+# ----------------------------------------------------------------------------------------------
+# C05: structure (container nesting, shape incl. () vs (1,), real/complex kind) of VJP / JVP results
+
+
+def check_structure(cfg, tier="quick"):
+    opts = tier_opts(tier)
+    out = Outcome(cfg)
+    t0 = time.time()
+    paths = explore_cfg(cfg, out, sym_body(cfg, True, True), opts)
+    if paths is None:
+        out.time = time.time() - t0
+        return out
+    nok = 0
+    nraise = 0
+    for p in paths:
+        if p.err is not None:
+            out.status, out.detail = "error", "harness: body raised %s" % exc_sig(p.err)
+            break
+        res = p.res
+        if res["tag"] == "numpy_rejects":
+            out.status, out.detail = ("numpy_rejects" if _numpy_float_raises(cfg) else "inconclusive"), exc_sig(res["exc"])
+            break
+        r, m = witness(p, out, opts)
+        if r == "unsat":
+            out.paths_dropped += 1
+            continue
+        bad = None
+        checked = 0
+        if "got" in res:
+            checked += 1
+            if structure(res["got"]) != structure(res["x"]):
+                bad = ("vjp", "VJP result %s does not have the structure of the argument %s" % (structure(res["got"]), structure(res["x"])))
+        if bad is None and "tan" in res:
+            checked += 1
+            if structure(res["tan"]) != structure(res["y"]):
+                bad = ("jvp", "JVP result %s does not have the structure of the output %s" % (structure(res["tan"]), structure(res["y"])))
+        if checked == 0:
+            nraise += 1
+            out.detail = exc_sig(res.get("vjp_exc") or res.get("jvp_exc"))
+            continue
+        nok += 1
+        if bad:
+            mode, what = bad
+            rng = _rng(cfg)
+            env = _Default(model_env(m or {}, all_var_names(list(res["args"])), rng), rng)
+            rep, info = replay_structure(cfg, env, mode)
+            if rep:
+                out.status, out.detail = "violation", "%s; float64: %s" % (what, info)
+                out.cex = {"env": {k_: float(v) for k_, v in env.items() if "!" not in k_}, "mode": "structure-" + mode, "info": info}
+            else:
+                out.status, out.detail = "inconclusive", "structure differs on symbolic arrays only (object-dtype artefact): %s; float64: %s" % (what, info)
+            break
+    if out.status is None:
+        if nok == 0:
+            out.status = "raises" if nraise else "error"
+        else:
+            out.status = "holds"
+            out.validated += 1
+    out.time = time.time() - t0
+    return out
+
+
+def replay_structure(cfg, env, mode):
+    try:
+        if mode == "vjp":
+            yv, g, got = float_vjp(cfg, env)
+            want = structure(cfg.float_args(env)[cfg.argnum])
+            have = structure(got)
+        else:
+            yv, v, tan = float_jvp(cfg, env)
+            want = structure(yv)
+            have = structure(tan)
+    except Exception as e:
+        return False, "float64 run raised %s" % exc_sig(e)
+    return have != want, "%s result structure %s, expected %s" % (mode, have, want)
